@@ -112,6 +112,7 @@ fn header_sets() -> Vec<Vec<(&'static str, &'static [u8])>> {
         // names that merely resemble the three proxy-owned ones, and the platform's own request headers
         vec![("x-ms-azure-host-name", b"my-vm"), ("X-Ms-Azure-Host-Claims-Extra", b"x"), ("x-ms-azure-hostx", b"1"), ("x-ms-azure-host", b"h"), ("x-ms-version", b"2012-11-30"), ("x-ms-agent-name", b"WALinuxAgent"), ("Metadata", b"true")],
         // well-known request header names (one that a relay special-cases by name must show up)
+        vec![("Connection", b"keep-alive"), ("Keep-Alive", b"timeout=5, max=100"), ("Proxy-Connection", b"keep-alive")],
         vec![("Accept-Encoding", b"gzip"), ("Cache-Control", b"no-cache"), ("Pragma", b"no-cache"), ("Origin", b"http://x"), ("Referer", b"http://x/y"), ("Authorization", b"Bearer abc.def"), ("If-None-Match", b"\"e1\""), ("Range", b"bytes=0-9"), ("Via", b"1.1 v"), ("X-Forwarded-For", b"10.0.0.1"), ("Forwarded", b"for=10.0.0.1"), ("Content-Type", b"text/plain; charset=utf-8"), ("Content-Language", b"en"), ("Accept-Language", b"en-US,en;q=0.5")],
     ]
 }
@@ -636,7 +637,7 @@ fn main() {
         res.cov("host_dies_mid_answer_requests", aborted_n);
         res.cov("exempt_upload_requests", exempt_n);
         res.cov("pipelines", pipelines);
-        res.cov("rule", format!("one request per fresh attributed connection for the product of 5 methods x {} client header sets (repeated names in three spellings, empty value, punctuation, names resembling the proxy-owned ones, 14 well-known request headers) x {} request body framings (0..102400 bytes, content-length / chunks of 1, 7, 4096 / single chunk) x {} host answers (status 200/204/404/500, body 0/1/70000 bytes covering all byte values, content-length or chunked, TCP segment boundary at 0/1/2/4095/4096/4097), with a key latched and (slice) without; plus {} pipelines of 1-3 back-to-back requests on 1 and 2 concurrent keep-alive connections; plus a SAMPLED family of 300 (1200) back-to-back request pairs on kept-alive connections while the agent's runtime workers are held 0.7 ms at a time; plus three uploads that take 10.8 s in total (4 pieces 3.6 s apart; exempt and signed route, content-length and chunked); plus 30 absolute-form request targets (3 authorities x 5 path/query shapes x 2 methods): path and query unchanged at the host; plus 28 requests whose query merely contains dots / escaped dots or whose head is 8 KiB .. 100 KiB large; plus answers cut off by the death of the host at 10 offsets (inside the head, 0/1/3/4000/8197 bytes into the body, 8/5/3/1 bytes before the end) x content-length/chunked x 2 sizes, which must not reach the client as a complete message; plus the two signature-exempt uploads with 9 body framings (0 bytes .. 1 MiB, content-length and chunked) x 2 header sets; the host's answer is a function of the request target and echoes the request id", hsets, req_bodies.len(), resps.len(), pipelines));
+        res.cov("rule", format!("one request per fresh attributed connection for the product of 5 methods x {} client header sets (repeated names in three spellings, empty value, punctuation, names resembling the proxy-owned ones, connection-management headers, 14 well-known request headers) x {} request body framings (0..102400 bytes, content-length / chunks of 1, 7, 4096 / single chunk) x {} host answers (status 200/204/404/500, body 0/1/70000 bytes covering all byte values, content-length or chunked, TCP segment boundary at 0/1/2/4095/4096/4097), with a key latched and (slice) without; plus {} pipelines of 1-3 back-to-back requests on 1 and 2 concurrent keep-alive connections; plus a SAMPLED family of 300 (1200) back-to-back request pairs on kept-alive connections while the agent's runtime workers are held 0.7 ms at a time; plus three uploads that take 10.8 s in total (4 pieces 3.6 s apart; exempt and signed route, content-length and chunked); plus 30 absolute-form request targets (3 authorities x 5 path/query shapes x 2 methods): path and query unchanged at the host; plus 28 requests whose query merely contains dots / escaped dots or whose head is 8 KiB .. 100 KiB large; plus answers cut off by the death of the host at 10 offsets (inside the head, 0/1/3/4000/8197 bytes into the body, 8/5/3/1 bytes before the end) x content-length/chunked x 2 sizes, which must not reach the client as a complete message; plus the two signature-exempt uploads with 9 body framings (0 bytes .. 1 MiB, content-length and chunked) x 2 header sets; the host's answer is a function of the request target and echoes the request id", hsets, req_bodies.len(), resps.len(), pipelines));
     } else {
         // ---------------- C15 ----------------
         w.set_key(Some(K1));
